@@ -46,7 +46,7 @@ def hexs(s):
 # case generation
 
 OPTS_ALL = ["".join(p) for p in itertools.product("01", repeat=5)]          # hp, rp, cb, bsx, sf
-SHAPE_FLAGS_LE = ["un", "u", "n", "", "unc", "unw", "uns", "unsc", "unsp", "unsq", "unt", "unts", "unT", "unTs", "unm", "unsm", "una", "une", "unsae", "uc",
+SHAPE_FLAGS_LE = ["un", "u", "n", "", "unc", "unw", "uns", "unsc", "unsp", "unsq", "unt", "unts", "unT", "unTs", "unsS", "unsS3", "uns3", "unm", "unsm", "una", "une", "unsae", "uc",
                   "unsfr", "unsfR", "unsr", "unsR", "unscfR", "unsfrp"]
 SHAPE_FLAGS_SE = ["un", "u", "n", "", "unc", "unw", "uns", "unsc", "unsd", "unm", "unsm", "una", "une", "unh", "unhs", "unhsd", "uc"]
 
@@ -107,7 +107,7 @@ def gen_cases(tier, rng):
             for _ in range(24 if full else 4):
                 gens.append("gen ver=sk seed=%d opts=%s nodes= shapes=Shp:0:%d:%d:%s:%d" % (
                     rng.randint(1, 10 ** 6), rng.choice(["01111", "00000", "01000"]), rng.randint(120, 260), rng.randint(80, 200),
-                    rng.choice(["uns", "unsc", "uns"]), rng.choice([81, 85, 100, 130, 200])))
+                    rng.choice(["uns", "unsc", "unsS3", "uns3"]), rng.choice([81, 85, 100, 130, 200])))
         for pool in NAME_POOLS:                              # sibling name clashes
             shapes = ";".join(gen_shape(rng, ver, n, 0, rng.choice(["un", "unc", "uns"])) for n in pool)
             gens.append("gen ver=%s seed=%d opts=01111 nodes= shapes=%s" % (ver, rng.randint(1, 10 ** 6), shapes))
